@@ -157,7 +157,7 @@ def check_generic(case: t.Any, ctx: Ctx) -> None:
 # of the class holding the converted items; into_data gives them back.
 
 _NT: t.Dict[str, t.Any] = {}
-_NT_VALUES = [[1, 'a'], (2, 'b'), [1], ['a'], [None], [1.5], [True], [1, 'a', 3], [], ['a', 1], [[1], 'a'], 'ab', {'a': 1, 'b': 'x'}, None, 5, [1, 2], [1, None]]
+_NT_VALUES = [[1, 'a'], (2, 'b'), [1], [-1], [0], ['a'], [None], [1.5], [True], [1, 'a', 3], [], ['a', 1], [[1], 'a'], 'ab', {'a': 1, 'b': 'x'}, None, 5, [1, 2], [1, None]]
 
 
 def _nt_classes() -> t.Dict[str, t.Any]:
@@ -167,6 +167,8 @@ def _nt_classes() -> t.Dict[str, t.Any]:
         _NT['One'] = t.NamedTuple('One', [('x', int)])
         _NT['Opt'] = t.NamedTuple('Opt', [('a', int), ('b', t.Optional[str])])
         _NT['Plain'] = collections.namedtuple('Plain', ['p', 'q'])
+        import pane.annotations as _A
+        _NT['Cond'] = t.NamedTuple('Cond', [('x', t.Annotated[int, _A.Positive])])      # a slot type carrying a condition
         # a subclass that only adds behaviour: its fields (and their types) are the inherited ones
         _NT['PtSub'] = type('PtSub', (_NT['Pt'],), {'__slots__': (), 'norm': lambda self: abs(self.a)})
     return _NT
@@ -174,7 +176,7 @@ def _nt_classes() -> t.Dict[str, t.Any]:
 
 def nt_cases(shard: int, nshards: int) -> t.Iterator[t.Any]:
     i = 0
-    for name in ('Pt', 'One', 'Opt', 'Plain', 'PtSub'):
+    for name in ('Pt', 'One', 'Opt', 'Plain', 'PtSub', 'Cond'):
         for wrap in ('bare', 'List', 'field'):
             for vi in range(len(_NT_VALUES)):
                 if i % nshards == shard:
@@ -187,9 +189,11 @@ def check_namedtuple(case: t.Any, ctx: Ctx) -> None:
     (name, wrap, vi) = case
     cls = _nt_classes()[name]
     v = _NT_VALUES[vi]
-    slots = {'Pt': [int, str], 'PtSub': [int, str], 'One': [int], 'Opt': [int, (str, type(None))], 'Plain': [object, object]}[name]
+    slots = {'Pt': [int, str], 'PtSub': [int, str], 'One': [int], 'Cond': [int], 'Opt': [int, (str, type(None))], 'Plain': [object, object]}[name]
     ok = isinstance(v, (list, tuple)) and len(v) == len(slots) and all(
         (s is object) or (type(x) in (s if isinstance(s, tuple) else (s,))) for (s, x) in zip(slots, v))
+    if name == 'Cond' and ok:
+        ok = v[0] > 0
     unspec = isinstance(v, (list, tuple)) and len(v) == len(slots) and any(type(x) is bool and s is int for (s, x) in zip(slots, v))
     ctx.label(f"nt:{name}", wrap, 'accept' if ok else 'reject')
     ctx.nontrivial(True)
